@@ -20,7 +20,7 @@ from ..tok import S
 from ..gen import graphs as G
 
 PID = "C12"
-COQ_HEADER = "From Coq Require Import List NArith ZArith.\nImport ListNotations.\nFrom SK Require Import lib.Tok lib.LGraph model.C12_Model model.C12_Trace model.C12_Check model.C12_State.\n"
+COQ_HEADER = "From Coq Require Import List NArith ZArith.\nImport ListNotations.\nFrom SK Require Import lib.Tok lib.LGraph model.C12_Model model.C12_Trace model.C12_Check model.C12_CheckMtg model.C12_State.\n"
 SHARD = 250
 IMPL_TIMEOUT = 1500
 COQ_TIMEOUT = 1500
@@ -63,7 +63,7 @@ TESTED_NOT_PROVED = ["prune_automorphisms=True: WHICH mapping represents a host 
                      "C12_facade_mcs_mol): the full mapping is compared",
                      "its_decompose (synkit.Graph.ITS, not anchored): the four sides are inputs of the model, computed by the generator independently",
                      "__repr__ / help / __iter__ of the matcher objects: checked by the adapter against the stored result after every step"]
-LEVEL_TEXT = ("Machine-checked proof (Coq, 52 theorems in coq/props/C12.v, all closed under the global context) over an executable model "
+LEVEL_TEXT = ("Machine-checked proof (Coq, 53 theorems in coq/props/C12.v, all closed under the global context) over an executable model "
               "of MCSMatcher._search_subgraphs / _prune_graph / _prepare_orientation / find_common_subgraph / get_mappings (both copies of "
               "the matcher), for all pairs of graphs with distinct node ids: every returned mapping (both modes, all three directions, after "
               "orientation swap and wildcard pruning) is a function, injective, label-preserving, and preserves presence AND order of every "
@@ -209,7 +209,8 @@ def _run(case):
     assert len(case["edge_attrs"]) == 1
     na, nd, ea = _ctor_args(case)
     M = mod.MCSMatcher(na, nd, case["edge_attrs"][0]) if ea is not None else mod.MCSMatcher(na, nd)
-    M.find_common_subgraph(g1, g2, **_kw(bool(case.get("minimal")), _FCS_DEF, mcs=case["mcs"]))
+    extra = {"mcs_mol": True} if case.get("mode") == "mcs_mol" else {}      # wave 4: the MTG copy's own mcs_mol mode
+    M.find_common_subgraph(g1, g2, **_kw(bool(case.get("minimal")), _FCS_DEF, mcs=case["mcs"], **extra))
     return M, _Count.n
 
 
@@ -255,7 +256,11 @@ def _nx_matchers(case):
             if a is None or b is None or float(a) != float(b):
                 return False
         return True
-    return nm, em
+
+    def em_mtg(h, p):           # MTG copy: one attribute, a missing value matches nothing
+        a, b = h.get(names[0]), p.get(names[0])
+        return a is not None and b is not None and float(a) == float(b)
+    return nm, (em_mtg if case.get("variant") == "mtg" else em)
 
 
 def _replay_objects(hist, k):
@@ -330,13 +335,16 @@ def _vf2_mol_choice(case):
 def _mol_tracked(case):
     """mcs_mol on FRESH graph objects: the combined mapping itself is compared (VF2's choice is a model input); on objects edited
     in place the adjacency order -- and with it VF2's choice -- is not reproducible from the case: pairing only."""
-    return bool(case.get("mode") == "mcs_mol" and case.get("variant", "matcher") == "matcher"
-                and (not case.get("in_history") or case.get("mol_tracked")))
+    if case.get("variant", "matcher") == "mtg":
+        return bool(case.get("mode") == "mcs_mol" and not case.get("in_history"))
+    return bool(case.get("mode") == "mcs_mol" and (not case.get("in_history") or case.get("mol_tracked")))
 
 
 def _obs(M, cnt, variant, case=None):
     if case is not None and case.get("mode") == "mcs_mol" and not _mol_tracked(case):
         return [M._last_pattern_is_G1, M.last_size, cnt, _mol_pairs(case, M)]
+    if case is not None and case.get("mode") == "mcs_mol" and variant == "mtg":
+        return [M.last_size, cnt, _dicts(M.get_mappings())]
     if case is not None and case.get("mode") == "mcs_mol":
         return [M._last_pattern_is_G1, M.last_size, cnt, _dicts(M.get_mappings()), _dicts(M.get_mappings("G1_to_G2")),
                 _dicts(M.get_mappings("G2_to_G1"))]
@@ -610,7 +618,8 @@ def _run_history(case):
 # ------------------------------------------------------------------ model encoder
 
 def _in_domain(case):
-    if case.get("mode") not in (None, "component", "mcs_mol") or (case.get("mode") and case["variant"] != "matcher"):
+    if case.get("mode") not in (None, "component", "mcs_mol") or (case.get("mode") and case["variant"] != "matcher"
+                                                                  and not (case.get("mode") == "mcs_mol" and not case.get("in_history"))):
         return False
     if case.get("prune_auto") and (case.get("mode") or case["variant"] != "matcher"):
         return False
@@ -992,6 +1001,9 @@ def coq_case(case):
         return "%s %s %s %s %s %s %s" % ("run_component" if case.get("mode") == "component" else
                                          "run_matcher_auto" if case.get("prune_auto") else "run_matcher_tr", defs, cbool(case.get("prune_wc", False)), cN(I(_wc(case))), g1, g2,
                                                   cbool(case["mcs"]))
+    if case.get("mode") == "mcs_mol":
+        ch = clist([cpair(cN(a), cN(b)) for a, b in _vf2_mol_choice(case)])
+        return "run_mcs_mol_with_mtg %s %s %s %s" % (defs, g1, g2, ch)
     return "run_mtg_tr %s %s %s %s" % (defs, g1, g2, cbool(case["mcs"]))
 
 
@@ -2115,6 +2127,10 @@ def gen_cases(tier, rng):
     # element_key of the constructor), so every default value is exercised; own RNG, the cases themselves are unchanged
     import random as _random
     rng2 = _random.Random(rng.getrandbits(32))
+    for c in cases:          # the MTG copy has the same mcs_mol mode (no pruning): a third of the mcs-mol cases go to it
+        if c.get("kind") == "mcs-mol" and not c.get("prune_wc") and "steps" not in c and rng2.random() < 0.33:
+            c["variant"] = "mtg"
+            c["kind"] = "mcs-mol/mtg"
     for c in cases:
         if "steps" in c:
             for st in c["steps"]:
